@@ -179,6 +179,7 @@ type expiryCtx struct {
 	w        *world.World
 	helpers  map[*ssa.Function]int // expiry predicate helpers -> polarity of their result
 	computed bool
+	existsFn *ssa.Function // the function bound to the KeysExist accessor
 }
 
 var expCtx *expiryCtx
@@ -187,6 +188,9 @@ func expiryOf(w *world.World) *expiryCtx {
 	if expCtx == nil || expCtx.w != w {
 		expCtx = &expiryCtx{w: w, helpers: map[*ssa.Function]int{}}
 		expCtx.findHelpers()
+		if b := w.Binding(); b != nil {
+			expCtx.existsFn = b.Field["KeysExist"]
+		}
 	}
 	return expCtx
 }
@@ -425,6 +429,18 @@ func (e *expiryCtx) edgeGen(fn *ssa.Function, deadlineOK func(ssa.Value) bool) w
 			}
 			return factAlive
 		}
+		// delegation: `if keysExist(ctx, keys)[key]` - the sibling read primitive (itself an X1 instance)
+		// has tested the entry's deadline; its "exists" edge is ALIVE (same critical section or not, the
+		// entry read afterwards is at worst fresher)
+		{
+			c, neg := world.CondValue(iff), false
+			if u, ok := c.(*ssa.UnOp); ok && u.Op == token.NOT {
+				c, neg = u.X, true
+			}
+			if e.viaExistsPrimitive(c) && (si == 0) != neg {
+				return factAlive
+			}
+		}
 		// a zero deadline never expires: the "is zero" edge of a zero test on a deadline is ALIVE
 		if v, trueIsZero, ok := zeroTimeTest(world.CondValue(iff)); ok && derivesFrom(v, isExpireAtField, 0) && (deadlineOK == nil || deadlineOK(v)) {
 			if (si == 0) == trueIsZero {
@@ -433,6 +449,18 @@ func (e *expiryCtx) edgeGen(fn *ssa.Function, deadlineOK func(ssa.Value) bool) w
 		}
 		return 0
 	}
+}
+
+// viaExistsPrimitive: v is (a lookup in) the result of a static call to the function bound to the
+// KeysExist accessor.
+func (e *expiryCtx) viaExistsPrimitive(v ssa.Value) bool {
+	if e.existsFn == nil {
+		return false
+	}
+	return derivesFrom(v, func(x ssa.Value) bool {
+		c, ok := x.(*ssa.Call)
+		return ok && c.Call.StaticCallee() == e.existsFn
+	}, 0)
 }
 
 // ---- ordering evaluation: walk a CFG deciding recognised comparisons ----
